@@ -43,6 +43,8 @@ type Loc struct {
 }
 
 type Obligation struct {
+	witness    *Witness      // class W: the recorded input that failed again
+	witnessOut witnessResult
 	Name      string
 	Class     string
 	Func      string
@@ -152,6 +154,7 @@ type Gen struct {
 	hasModifies bool
 	retCount  int
 	usedTrusted map[string]bool
+	singleDefs  map[types.Object]ssa.Value
 	callGuard   string // guard of the alternative of a dynamic call being processed
 	entryAlloc string
 	axioms    []*axiomText
